@@ -201,6 +201,12 @@ func (t *termer) val(v ssa.Value) string {
 	case *ssa.BinOp:
 		return "(" + t.val(x.X) + " " + x.Op.String() + " " + t.val(x.Y) + ")"
 	case *ssa.Call:
+		if rv, f := transparentResult(&x.Call); rv != nil {
+			restore := aliasParams(f, x.Call.Args)
+			s := t.val(rv)
+			restore()
+			return s
+		}
 		return t.call(&x.Call)
 	case *ssa.Extract:
 		switch tup := x.Tuple.(type) {
@@ -384,6 +390,17 @@ func Lit(cond ssa.Value, pol bool) string {
 			if !pol {
 				op = negCmp(op)
 			}
+			// non-negative quantities: `> 0`, `>= 1` are `!= 0`; `<= 0`, `< 1` are `== 0`
+			if nonNegative(x) {
+				if k, isK := constInt(y); isK {
+					switch {
+					case (op == token.GTR && k == 0) || (op == token.GEQ && k == 1):
+						return Term(x) + " != 0"
+					case (op == token.LEQ && k == 0) || (op == token.LSS && k == 1):
+						return Term(x) + " == 0"
+					}
+				}
+			}
 			return Term(x) + " " + op.String() + " " + Term(y)
 		}
 	}
@@ -391,6 +408,19 @@ func Lit(cond ssa.Value, pol bool) string {
 		return Term(cond)
 	}
 	return "!" + Term(cond)
+}
+
+// nonNegative: len/cap results and values of unsigned type.
+func nonNegative(v ssa.Value) bool {
+	if c, ok := v.(*ssa.Call); ok {
+		if b, isB := c.Call.Value.(*ssa.Builtin); isB && (b.Name() == "len" || b.Name() == "cap") {
+			return true
+		}
+	}
+	if b, ok := v.Type().Underlying().(*types.Basic); ok && b.Info()&types.IsUnsigned != 0 {
+		return true
+	}
+	return false
 }
 
 func flipCmp(op token.Token) token.Token {
